@@ -657,7 +657,10 @@ pub fn run_case(prop: &'static str, tier: &str, seed: u64, scratch: &Path, rep: 
             );
         }
         match prop {
-            "C17" => previous_image_monitor(rep, &base, &recd.events, &ctx0),
+            "C17" => {
+                previous_image_monitor(rep, &base, &recd.events, &ctx0);
+                c17_injected(rep, &mut rng, &cfg, &recd, scratch, &ctx0);
+            }
             "C04" => {
                 durability_monitor(rep, &recd.events, true, &ctx0);
                 images(rep, &mut rng, &p, &cfg, &recd, scratch, &ctx0, false);
@@ -1038,6 +1041,52 @@ fn real_kills(rep: &mut Rep, rng: &mut Rng, p: &EioParams, cfg: &Cfg, r: &Record
                 rep.feat("real_kill_child_finished_before_k", 1);
             }
             other => rep.inconclusive.push(format!("{ctx}: child ended with {other}")),
+        }
+        let _ = std::fs::remove_dir_all(&work);
+    }
+}
+
+/// C17 under faults: if the switch-over record does not become durable (the meta write or its
+/// fsync fails), nothing the previous image references may be touched at all.
+fn c17_injected(rep: &mut Rep, rng: &mut Rng, cfg: &Cfg, r: &Recorded, scratch: &Path, ctx0: &str) {
+    let ks: Vec<(u64, &'static str)> = r
+        .events
+        .iter()
+        .filter(|e| e.phase == Phase::Pre && (e.site == "meta_write" || e.site == "meta_fsync"))
+        .map(|e| (e.mut_index, e.site))
+        .collect();
+    let rec = recorder();
+    for (k, site) in ks {
+        if rep.diverged {
+            return;
+        }
+        let work = scratch.join("inj17");
+        if shadow::copy_dir(&r.base, &work).is_err() {
+            continue;
+        }
+        rec.start(&work, Mode::Off);
+        nomt::verif::set_seg_size_override(cfg.seg_size);
+        let Ok(Ok(db)) = guard(|| Db::<K>::open(cfg.options(&work))) else { continue };
+        let mut sut = Sut::<K> {
+            dir: work.clone(),
+            cfg: cfg.clone(),
+            db: Some(db),
+            model: r.pre.clone(),
+            dead: false,
+        };
+        rec.start(&work, Mode::Inject { at: k, errno: libc::EIO, persistent: false });
+        let mut sub = rep.sub();
+        let _ = apply_op(&mut sut, &mut sub, rng, &r.op, ctx0);
+        let injected_at_site = {
+            let st = rec.st.lock();
+            st.injected > 0 && st.injected_site.as_ref().map_or(false, |x| x.0 == site)
+        };
+        let events = rec.stop();
+        sut.db = None;
+        if injected_at_site {
+            let ctx = format!("{ctx0} with EIO injected at {site}");
+            previous_image_monitor(rep, &r.base, &events, &ctx);
+            rep.feat("c17_failed_switch_over_runs", 1);
         }
         let _ = std::fs::remove_dir_all(&work);
     }
